@@ -1,11 +1,12 @@
 """C17 - analysis methods are reported as supported only when the model permits them."""
 from ..report import Check
-from ..rules import features
+from ..rules import features, descend
 
 
 def run(F, G, tier, seed):
     chk = Check("C17", tier, "other", seed)
     features.run(chk, F, G)
+    descend.run(chk, F, ["uses_fp", "uses_hybrid"], [])
     return chk.finish(
         "Decides completeness of the feature detectors over the expression forms the type checker admits in guards, "
         "invariants and updates (kinds taken from C10's decision table and the grammar's write kinds), and the "
